@@ -520,6 +520,12 @@ def replay_main(args):
         body = json.load(handle)
     if getattr(mod, "NEEDS_JSONSCHEMA", False):
         bootstrap.ensure_deps()
+    if isinstance(body.get("case"), dict) and "case_indices" in body["case"]:
+        # a process-history witness is a property of two processes, not of one case: replay = the same
+        # seed and tier again (shard 0 and its mirror are deterministic functions of them)
+        args.tier = body.get("tier", "quick") if body.get("tier") in ("quick", "thorough") else "quick"
+        args.seed = body.get("seed", 0)
+        return driver_main(args)
     faulthandler.enable()
     bootstrap.import_statham()
     ctx = Ctx(prop, body.get("tier", "quick"), body.get("seed", 0), 0, 1, mod.plan("quick"))
